@@ -87,6 +87,52 @@ func orderedMapPart() *cli.Part {
 			}
 		}
 		rec(nil)
+		// values that Decode must not share between entries: slices and pointers (a destination reused for the next
+		// entry would be appended to / aliased)
+		for n := 0; n <= 3; n++ {
+			evals++
+			ms := serializableorderedmap.New[uint16, serixgen.LexU16s]()
+			mp := serializableorderedmap.New[uint16, *serixgen.ImplA8]()
+			for i := 0; i < n; i++ {
+				ms.Set(uint16(10-i), serixgen.LexU16s{uint16(i + 1), uint16(100 + i)})
+				mp.Set(uint16(10-i), &serixgen.ImplA8{X: uint8(i + 1)})
+			}
+			encS, errS := ms.Encode(api)
+			encP, errP := mp.Encode(api)
+			if errS != nil || errP != nil {
+				fail("orderedmap|encode-error", fmt.Sprintf("Encode of a %d-entry map with slice / pointer values failed: %v / %v", n, errS, errP), n)
+				continue
+			}
+			ds2 := serializableorderedmap.New[uint16, serixgen.LexU16s]()
+			dp2 := serializableorderedmap.New[uint16, *serixgen.ImplA8]()
+			nS, errS := ds2.Decode(api, encS)
+			nP, errP := dp2.Decode(api, encP)
+			if errS != nil || errP != nil || nS != len(encS) || nP != len(encP) {
+				fail("orderedmap|decode", fmt.Sprintf("Decode of a %d-entry map with slice / pointer values returned (%d of %d, %v) / (%d of %d, %v)", n, nS, len(encS), errS, nP, len(encP), errP), n)
+				continue
+			}
+			dump := func(f func(func(k uint16, v string))) string {
+				var parts []string
+				f(func(k uint16, v string) { parts = append(parts, fmt.Sprintf("%d:%s", k, v)) })
+				return fmt.Sprint(parts)
+			}
+			wantS := dump(func(add func(uint16, string)) {
+				ms.ForEach(func(k uint16, v serixgen.LexU16s) bool { add(k, fmt.Sprint([]uint16(v))); return true })
+			})
+			gotS := dump(func(add func(uint16, string)) {
+				ds2.ForEach(func(k uint16, v serixgen.LexU16s) bool { add(k, fmt.Sprint([]uint16(v))); return true })
+			})
+			wantP := dump(func(add func(uint16, string)) {
+				mp.ForEach(func(k uint16, v *serixgen.ImplA8) bool { add(k, fmt.Sprint(*v)); return true })
+			})
+			gotP := dump(func(add func(uint16, string)) {
+				dp2.ForEach(func(k uint16, v *serixgen.ImplA8) bool { add(k, fmt.Sprint(*v)); return true })
+			})
+			if gotS != wantS || gotP != wantP {
+				fail("orderedmap|roundtrip-values", fmt.Sprintf("Decode(Encode(m)) differs for %d entries: slice values %s (want %s), pointer values %s (want %s)", n, gotS, wantS, gotP, wantP), n)
+			}
+			distinct++
+		}
 		// ds.Set[uint16]: contents and order
 		elems := []uint16{3, 1, 2, 0xffff}
 		var recSet func(seq []uint16)
